@@ -185,6 +185,10 @@ class HTTPException(Response, Exception):
             fmt_name, mimetype = 'text', 'text/plain'
         _method = getattr(self, 'to_' + fmt_name)
         self.data = self._encode_body(_method())
+        # the body was just replaced: a Content-Encoding set for the previous
+        # body (e.g. by GzipMiddleware around an endpoint that returned this
+        # error) no longer describes it
+        self.headers.pop('Content-Encoding', None)
         self.headers['Content-Type'] = get_content_type(mimetype, self.charset)
 
     def transcribe(self, request):
